@@ -72,11 +72,16 @@ def dependency_rule(ck):
     import re
 
     try:
-        lock = open(os.path.join(FX.REPO, "Cargo.lock")).read()
         toml = open(os.path.join(FX.REPO, "Cargo.toml")).read()
     except OSError as ex:
-        ck.fail("DEP", "manifest-readable", f"Cargo.toml / Cargo.lock not readable: {ex}", kind="anchor-missing")
+        ck.fail("DEP", "manifest-readable", f"Cargo.toml not readable: {ex}", kind="anchor-missing")
         return
+    try:
+        # Cargo.lock is not tracked by the repository: a fresh checkout has none until the first build writes it (from the
+        # manifest, which is checked below for path/git sources)
+        lock = open(os.path.join(FX.REPO, "Cargo.lock")).read()
+    except OSError:
+        lock = ""
     root = re.search(r'^\[package\][^\[]*?^name\s*=\s*"([^"]+)"', toml, re.M | re.S)
     root = root.group(1) if root else None
     bad = []
@@ -89,6 +94,14 @@ def dependency_rule(ck):
             continue
         if not (src and src.group(1).startswith("registry+") and chk):
             bad.append(f"{name} ({src.group(1) if src else 'path dependency'})")
+    in_dep = False
+    for line in (l_.split("#")[0] for l_ in toml.splitlines()):
+        hdr = re.match(r"\s*\[+([^\]]+)\]+", line)
+        if hdr:
+            in_dep = "dependencies" in hdr.group(1)
+            continue
+        if in_dep and re.search(r"\b(path|git)\s*=", line):
+            bad.append(f"Cargo.toml: {line.strip()[:80]}")
     for sec in re.findall(r"^\[(patch[^\]]*|replace)\]", toml, re.M):
         bad.append(f"[{sec}] section in Cargo.toml")
     if bad:
